@@ -108,9 +108,52 @@ func buildResources(ops []MOp) *api.LinuxResources {
 	return r
 }
 
+// mkMount, mkHooks, mkRlimit: every field of the item varies with the value, and the value of the item
+// in the model is its whole description, so a dropped or mixed-up field shows.
 func mkMount(dest string, v int) *api.Mount {
-	return &api.Mount{Destination: dest, Source: valStr("mount", v), Type: "bind", Options: []string{"bind", "ro"}}
+	m := &api.Mount{Destination: dest, Source: fmt.Sprintf("/src/v%d", v)}
+	switch v % 3 {
+	case 0:
+		m.Type, m.Options = "bind", []string{"bind", "ro"}
+	case 1:
+		m.Type, m.Options = "tmpfs", []string{"rw", "nosuid", fmt.Sprintf("size=%dk", v%97+1)}
+	default:
+		m.Type, m.Options = "bind", []string{"rbind", "rw", "noexec", "nodev"}
+	}
+	return m
 }
+
+func mountDesc(source, typ string, options []string) string {
+	return source + " " + typ + " " + strings.Join(options, ",")
+}
+
+func mkHook(v int) *api.Hook {
+	h := &api.Hook{Path: fmt.Sprintf("/hook/v%d", v), Args: []string{"hook", fmt.Sprintf("a%d", v)}}
+	if v%2 == 0 {
+		h.Env = []string{fmt.Sprintf("H=%d", v), "X=1"}
+	}
+	if v%3 == 0 {
+		h.Timeout = api.Int(v%50 + 1)
+	}
+	return h
+}
+
+func hookDesc(path string, args, env []string, timeout *int) string {
+	s := path + " [" + strings.Join(args, " ") + "]"
+	if len(env) > 0 {
+		s += " env=" + strings.Join(env, ",")
+	}
+	if timeout != nil {
+		s += fmt.Sprintf(" timeout=%d", *timeout)
+	}
+	return s
+}
+
+func mkRlimit(typ string, v int) *api.POSIXRlimit {
+	return &api.POSIXRlimit{Type: typ, Hard: uint64(v), Soft: uint64(v) / 2}
+}
+
+func rlimitDesc(hard, soft uint64) string { return fmt.Sprintf("%d:%d", hard, soft) }
 
 // mkDevice: type, minor, file mode and ownership vary with the value so that a mixed-up or shared
 // field shows (the value of a device item is its whole description, devDesc).
@@ -150,7 +193,7 @@ func devDescNRI(d *api.LinuxDevice) string {
 }
 
 func mkHooks(typ string, v int) *api.Hooks {
-	h := []*api.Hook{{Path: valStr("hook", v), Args: []string{"hook"}}}
+	h := []*api.Hook{mkHook(v)}
 	switch typ {
 	case "prestart":
 		return &api.Hooks{Prestart: h}
@@ -193,7 +236,7 @@ func buildContainer(id, pod string, orig []MOp) *api.Container {
 			}
 			c.Hooks = c.Hooks.Append(mkHooks(o.Key, o.Val))
 		case "rlimit":
-			c.Rlimits = append(c.Rlimits, &api.POSIXRlimit{Type: o.Key, Hard: uint64(o.Val), Soft: uint64(o.Val)})
+			c.Rlimits = append(c.Rlimits, mkRlimit(o.Key, o.Val))
 		case "cgpath":
 			if c.Linux == nil {
 				c.Linux = &api.LinuxContainer{}
@@ -265,7 +308,7 @@ func buildAdjust(ops []MOp, stripArgsMarker bool) *api.ContainerAdjustment {
 		case "cdi":
 			a.AddCDIDevice(&api.CDIDevice{Name: o.Key})
 		case "rlimit":
-			a.AddRlimit(o.Key, uint64(o.Val), uint64(o.Val))
+			a.AddRlimit(o.Key, uint64(o.Val), uint64(o.Val)/2)
 		case "hook":
 			a.AddHooks(mkHooks(o.Key, o.Val))
 		case "cgpath":
